@@ -483,8 +483,19 @@ func (x *Exec) runBlock(b *ssa.BasicBlock) {
 		if ins.Pos().IsValid() {
 			lastPos = ins.Pos()
 		}
-		x.maybeApply(ins)
-		x.maybeAssert(ins)
+		if x.fileOrder() {
+			// "uses order=file": lemma applications and assertions anchored at the same line are processed
+			// in the order in which the contract lists them (the default is all applications first)
+			for _, ln := range x.pendingLines(ins) {
+				x.onlyLine = ln
+				x.maybeApply(ins)
+				x.maybeAssert(ins)
+			}
+			x.onlyLine = 0
+		} else {
+			x.maybeApply(ins)
+			x.maybeAssert(ins)
+		}
 		if x.maybeLimit(ins) {
 			x.curInstr = nil
 			return // the rest of this path is outside the contract's scope
@@ -643,6 +654,45 @@ func (x *Exec) applyLemma(ap *ApplySpec, pos token.Pos, id string) {
 	x.w.noteLemmaUse(ap.Lemma)
 }
 
+func (x *Exec) fileOrder() bool {
+	if x.contract == nil {
+		return false
+	}
+	for _, u := range x.contract.Uses {
+		if u == "order=file" {
+			return true
+		}
+	}
+	return false
+}
+
+// pendingLines lists the contract lines of the applications and before-assertions anchored at this
+// instruction's source line that have not been processed yet, in ascending order.
+func (x *Exec) pendingLines(ins ssa.Instruction) []int {
+	pos := ins.Pos()
+	if !pos.IsValid() {
+		return nil
+	}
+	text := x.lineText(pos)
+	line := x.w.fset.Position(pos).Line
+	seen := map[int]bool{}
+	var out []int
+	for _, ap := range x.contract.Applies {
+		if ap.Loop == 0 && !x.appliesDone[ap] && strings.Contains(text, ap.Text) && x.cutLine(&CutSpec{Text: ap.Text, Ord: ap.Ord}) == line && !seen[ap.Line] {
+			seen[ap.Line] = true
+			out = append(out, ap.Line)
+		}
+	}
+	for _, a := range x.contract.Asserts {
+		if a.Where != "after" && !x.assertsDone[a] && strings.Contains(text, a.Text) && x.cutLine(&CutSpec{Text: a.Text, Ord: a.Ord}) == line && !seen[a.Clause.Line] {
+			seen[a.Clause.Line] = true
+			out = append(out, a.Clause.Line)
+		}
+	}
+	sort.Ints(out)
+	return out
+}
+
 func (x *Exec) maybeApply(ins ssa.Instruction) {
 	if x.contract == nil || len(x.contract.Applies) == 0 {
 		return
@@ -653,7 +703,7 @@ func (x *Exec) maybeApply(ins ssa.Instruction) {
 	}
 	text := x.lineText(pos)
 	for k, ap := range x.contract.Applies {
-		if ap.Loop != 0 || x.appliesDone[ap] || !strings.Contains(text, ap.Text) {
+		if ap.Loop != 0 || x.appliesDone[ap] || !strings.Contains(text, ap.Text) || (x.onlyLine != 0 && ap.Line != x.onlyLine) {
 			continue
 		}
 		if x.cutLine(&CutSpec{Text: ap.Text, Ord: ap.Ord}) != x.w.fset.Position(pos).Line {
@@ -676,7 +726,7 @@ func (x *Exec) maybeAssert(ins ssa.Instruction) {
 	}
 	text := x.lineText(pos)
 	for k, a := range x.contract.Asserts {
-		if a.Where == "after" || x.assertsDone[a] || !strings.Contains(text, a.Text) {
+		if a.Where == "after" || x.assertsDone[a] || !strings.Contains(text, a.Text) || (x.onlyLine != 0 && a.Clause.Line != x.onlyLine) {
 			continue
 		}
 		if x.cutLine(&CutSpec{Text: a.Text, Ord: a.Ord}) != x.w.fset.Position(pos).Line {
